@@ -235,15 +235,25 @@ def run(prog: Program, rep, tier="quick"):
     pname = crf.node.args.args[0].arg
     found = {}
 
+    # expressions in REJECTING position: their truth makes the function answer False.  Roots: the condition of an `if` whose
+    # body returns False, and E in `return not E`; through and/or operands and through any(<generator>) to its element.
+    rejecting = set()
+
+    def propagate(e):
+        rejecting.add(id(e))
+        if isinstance(e, ast.BoolOp):
+            for v_ in e.values:
+                propagate(v_)
+        elif isinstance(e, ast.Call) and callee_name(e) == "any" and e.args and isinstance(e.args[0], (ast.GeneratorExp, ast.ListComp)):
+            propagate(e.args[0].elt)
+    for x in ast.walk(crf.node):
+        if isinstance(x, ast.If) and any(isinstance(s_, ast.Return) and isinstance(s_.value, ast.Constant) and s_.value.value is False for s_ in x.body):
+            propagate(x.test)
+        if isinstance(x, ast.Return) and isinstance(x.value, ast.UnaryOp) and isinstance(x.value.op, ast.Not):
+            propagate(x.value.operand)
+
     def on_false_path(test_node) -> bool:
-        """the test is the condition of an `if` whose body returns False (directly)."""
-        p = m.parents.get(test_node)
-        while p is not None and not isinstance(p, ast.If):
-            if isinstance(p, (ast.FunctionDef, ast.For, ast.While)):
-                return False
-            p = m.parents.get(p)
-        return p is not None and any(isinstance(s, ast.Return) and isinstance(s.value, ast.Constant)
-                                     and s.value.value is False for s in p.body)
+        return id(test_node) in rejecting
     in_tests, eq_tests, starts, ends, lt_tests, sub_in = set(), set(), set(), set(), set(), set()
     for x in ast.walk(crf.node):
         if isinstance(x, ast.Compare) and len(x.ops) == 1 and on_false_path(x):
@@ -294,8 +304,9 @@ def run(prog: Program, rep, tier="quick"):
         isinstance(s, ast.Return) and isinstance(s.value, ast.Constant) and s.value.value is False for s in x.body)]
     rep.ob("R16.5", REFS_PY, "check_ref_format", "every test returns False", not noop,
            f"a test no longer rejects: `{norm(noop[0].test, 60)}`" if noop else "", noop[0].lineno if noop else crf.node.lineno)
-    final_true = isinstance(crf.node.body[-1], ast.Return) and isinstance(crf.node.body[-1].value, ast.Constant) \
-        and crf.node.body[-1].value.value is True
+    last_ = crf.node.body[-1]
+    final_true = isinstance(last_, ast.Return) and ((isinstance(last_.value, ast.Constant) and last_.value.value is True) or
+                                                    (isinstance(last_.value, ast.UnaryOp) and isinstance(last_.value.op, ast.Not) and id(last_.value.operand) in rejecting))
     rep.ob("R16.5", REFS_PY, "check_ref_format", "falls through to True", final_true, "", crf.node.lineno)
     # the refs container applies the check on every name it writes
     chk = prog.func(REFS_PY, "RefsContainer._check_refname")
